@@ -388,6 +388,10 @@ impl Protocol for V5 {
                     connect::read(fixed_header, packet)?;
                 Packet::Connect(connect, properties, will, willproperties, login)
             }
+            PacketType::ConnAck => {
+                let (connack, properties) = connack::read(fixed_header, packet)?;
+                Packet::ConnAck(connack, properties)
+            }
             PacketType::Publish => {
                 let (publish, properties) = publish::read(fixed_header, packet)?;
                 Packet::Publish(publish, properties)
@@ -407,6 +411,10 @@ impl Protocol for V5 {
             PacketType::Unsubscribe => {
                 let (unsubscribe, properties) = unsubscribe::read(fixed_header, packet)?;
                 Packet::Unsubscribe(unsubscribe, properties)
+            }
+            PacketType::UnsubAck => {
+                let (unsuback, properties) = unsuback::read(fixed_header, packet)?;
+                Packet::UnsubAck(unsuback, properties)
             }
             PacketType::PingReq => Packet::PingReq(PingReq),
             PacketType::PingResp => Packet::PingResp(PingResp),
